@@ -56,7 +56,8 @@ def tagchilds_table(prog: Program) -> Dict[str, Any]:
             item = el
         if not isinstance(item, SObj):
             raise Unmodelled("_tagchilds_to_tagnodes: loop does not iterate (index, item) or item")
-        stores = [e for e in l.effects if e.kind in ("store_item", "mutcall", "store_slice")]
+        start = rec.__dict__.get("body_effect_start", 0)
+        stores = [e for e in l.effects[start:] if e.kind in ("store_item", "mutcall", "store_slice")]
         if l.kind == "raise":
             exc = l.value.cls_name if isinstance(l.value, SNew) else "?"
             rows.append(NormRow(frozenset(item.kinds), "raise", exc, None, stores))
@@ -98,6 +99,7 @@ def flatten_table(prog: Program) -> List[NormRow]:
         if not isinstance(el, SObj):
             raise Unmodelled("_flatten_recurse: loop target is not a single item")
         res = l.run.__dict__["result_list"]
+        l.effects[:] = l.effects[rec.__dict__.get("body_effect_start", 0):]
         calls = [e for e in l.effects if e.kind == "call" and getattr(e.target, "qual", "") == "_flatten_recurse"]
         appends = [e for e in l.effects if e.kind == "mutcall" and e.target is res]
         other = [e for e in l.effects if e.kind in ("mutcall", "store_item", "store_slice") and e.target is not res]
